@@ -327,6 +327,67 @@ theorem G_setGloss {nroot : Nat} {s : PState} (hg : G T nroot s) (label : Str) (
     · simp at hx; subst hx; exact he
 
 
+/-! ### cleveref -/
+
+theorem G_foldlSetMacros {nroot : Nat} (ms : List MacroDef) (hm : ∀ m ∈ ms, macroToksOk T m = true) :
+    ∀ {s : PState}, G T nroot s → G T nroot { s with macros := ms.foldl setMacro s.macros } := by
+  induction ms with
+  | nil => intro s hg; exact hg
+  | cons m ms ih =>
+    intro s hg
+    have h1 := G_setMacros T hg m (hm m (by simp))
+    exact ih (fun x hx => hm x (by simp [hx])) h1
+
+theorem crefMacros_ok (ls : List Cleveref.SedLine) : ∀ m ∈ crefMacros ls, macroToksOk T m = true := by
+  intro m hm
+  simp only [crefMacros, List.mem_cons, List.not_mem_nil, or_false] at hm
+  rcases hm with rfl | rfl | rfl | rfl <;>
+    simp [macroToksOk, arityOk, handlerArity, handlerNeedsA]
+
+/-- the replacement text of a reference, scanned and pinned to the call: only the diagnostics change -/
+theorem crefToks_step (hw : T.WFInv) {nroot : Nat} {st0 s : PState} (h0 : Good T nroot st0 s) (str : Str)
+    (pos : Nat) (hp : pos < st0.latex.length) :
+    Post (crefToks T str pos s) (fun r s' => Good T nroot st0 s' ∧ BL T st0.latex.length r) := by
+  simp only [crefToks]
+  refine Post_modifyPure _ _ _ _ ⟨⟨G_diags T nroot s _ h0.1, h0.2⟩, BL_restamp_map T ?_ hp⟩
+  have := scan_storedOk T hw str
+  rw [List.all_eq_true] at this
+  exact this
+
+/-- a macro defined by a command line of the sed file: the constructor has checked the argument
+    references (`utils.fatal` otherwise), its text consists of scanner tokens -/
+theorem defineSedMacro_step (hw : T.WFInv) {nroot : Nat} {st0 s : PState} (h0 : Good T nroot st0 s)
+    (m : Cleveref.SedMacro) :
+    Post (defineSedMacro T m s) (fun _ s' => Good T nroot st0 s') := by
+  simp only [defineSedMacro]
+  refine Post_bind _ _ _ (fun _ s1 => s1 = { s with diags := s.diags ++ (scan T.toTables m.repl).diags }) _
+    (Post_modify _ _ _ rfl) ?_
+  rintro _ s1 rfl
+  cases hf : List.find? (fun t => match argRef t with
+      | some k => decide (k < 1) || decide (k > m.nargs)
+      | none => false) (scan T.toTables m.repl).toks with
+  | some bad => exact Post_fatal _ _ _
+  | none =>
+    refine Post_modify _ _ _ ⟨G_setMacros T (G_diags T nroot s _ h0.1) _ ?_, h0.2⟩
+    simp only [macroToksOk, List.all_nil, Bool.and_true, Bool.and_eq_true]
+    exact ⟨scan_storedOk T hw m.repl,
+      arityOk_newcommand m.name _ _ [] m.nargs (List.length_replicate ..) hf⟩
+
+theorem forM_defineSedMacro_step (hw : T.WFInv) {nroot : Nat} {st0 : PState} (ms : List Cleveref.SedMacro) :
+    ∀ {s : PState}, Good T nroot st0 s → Post (ms.forM (defineSedMacro T) s) (fun _ s' => Good T nroot st0 s') := by
+  induction ms with
+  | nil => intro s h0; exact Post_pure _ _ _ h0
+  | cons m ms ih =>
+    intro s h0
+    show Post ((defineSedMacro T m >>= fun _ => ms.forM (defineSedMacro T)) s) _
+    exact Post_bind _ _ _ _ _ (defineSedMacro_step T hw h0 m) (fun _ s1 h1 => ih h1)
+
+theorem readSedText_step (hw : T.WFInv) {nroot : Nat} {st0 s : PState} (h0 : Good T nroot st0 s) (sed : Str) :
+    Post (readSedText T sed s) (fun _ s' => Good T nroot st0 s') := by
+  simp only [readSedText]
+  refine Post_bind _ _ _ _ _ (forM_defineSedMacro_step T hw _ h0) (fun _ s1 h1 => ?_)
+  exact Post_modify _ _ _ ⟨G_foldlSetMacros T _ (crefMacros_ok T _) h1.1, h1.2⟩
+
 section steps
 variable {T} {nroot fuel : Nat} (IH : AllSpecs T nroot fuel)
 include IH
@@ -361,15 +422,15 @@ theorem modDesc_step {st0 s : PState} (h0 : Good T nroot st0 s) (toks : List Tok
   exact ⟨Good_trans T h0 h1.1, by rw [← Good_len T h0]; exact h1.2⟩
 
 theorem loadModule_fold (hw : T.WFInv) (cls : Bool) (options : List KeyVal) (pos : Nat) (st0 : PState)
-    (names : List Str) (acc : List Tok) (s : PState) (hs : Good T nroot st0 s) (hacc : langOnly acc) :
+    (names : List Str) (acc : List Tok) (s : PState) (hs : Good T nroot st0 s) (hacc : injOk acc) :
     Post (names.foldlM (m := M) (fun acc p => do
         let o ← initPackage T fuel p ((findModule T cls p).getD (emptyModule p)) false options pos
-        pure (acc ++ o)) acc s) (fun r s' => Good T nroot st0 s' ∧ langOnly r) := by
+        pure (acc ++ o)) acc s) (fun r s' => Good T nroot st0 s' ∧ injOk r) := by
   induction names generalizing acc s with
   | nil => exact Post_pure _ _ _ ⟨hs, hacc⟩
   | cons p names ih =>
     rw [List.foldlM_cons]
-    refine Post_bind _ _ _ (fun r s' => Good T nroot st0 s' ∧ langOnly r) _ ?_
+    refine Post_bind _ _ _ (fun r s' => Good T nroot st0 s' ∧ injOk r) _ ?_
       (fun r s' h => ih r s' h.1 h.2)
     have hm : ∀ m ∈ ((findModule T cls p).getD (emptyModule p)).macros ++
         ((findModule T cls p).getD (emptyModule p)).envs, macroToksOk T m = true := by
@@ -828,6 +889,54 @@ theorem handler_loadModule (cls : Bool) (hh : HandlerArgs (.loadModule cls) args
     (fun out s4 hs4 => ?_)
   exact Post_pure _ _ _ ⟨hs4.1, BL_filterSetToks T _ pos out hp hs4.2⟩
 
+include hw hg hp in
+theorem handler_crefWarn :
+    Post (callHandler T (fuel + 1) .crefWarn buf mac args pos st)
+      (fun r st' => Good T nroot st st' ∧ BL T st.latex.length r) := by
+  simp only [callHandler]
+  exact latexError_step T hw (Good_refl T nroot st hg) _ _ hp
+
+include hw hg hp in
+theorem handler_cref (plain star : List (Str × Str)) (hh : HandlerArgs (.cref plain star) args) :
+    Post (callHandler T (fuel + 1) (.cref plain star) buf mac args pos st)
+      (fun r st' => Good T nroot st st' ∧ BL T st.latex.length r) := by
+  simp only [callHandler]
+  refine Post_argBind args 0 _ st _ (arity_lt hh (by simp [handlerArity])) (fun a0 h0 ea0 => ?_)
+  refine Post_argBind args 1 _ st _ (arity_lt hh (by simp [handlerArity])) (fun a1 h1 ea1 => ?_)
+  cases Cleveref.lookupLast (if List.isEmpty (getTextDirect a0) = true then plain else star) (getTextDirect a1) with
+  | some str => exact crefToks_step T hw (Good_refl T nroot st hg) _ _ hp
+  | none => exact latexError_step T hw (Good_refl T nroot st hg) _ _ hp
+
+include hw hg hp in
+theorem handler_crefrange (plain star : List ((Str × Str) × Str)) (hh : HandlerArgs (.crefrange plain star) args) :
+    Post (callHandler T (fuel + 1) (.crefrange plain star) buf mac args pos st)
+      (fun r st' => Good T nroot st st' ∧ BL T st.latex.length r) := by
+  simp only [callHandler]
+  refine Post_argBind args 0 _ st _ (arity_lt hh (by simp [handlerArity])) (fun a0 h0 ea0 => ?_)
+  refine Post_argBind args 1 _ st _ (arity_lt hh (by simp [handlerArity])) (fun a1 h1 ea1 => ?_)
+  refine Post_argBind args 2 _ st _ (arity_lt hh (by simp [handlerArity])) (fun a2 h2 ea2 => ?_)
+  cases Cleveref.lookupLast (if List.isEmpty (getTextDirect a0) = true then plain else star)
+      (getTextDirect a1, getTextDirect a2) with
+  | some str => exact crefToks_step T hw (Good_refl T nroot st hg) _ _ hp
+  | none => exact latexError_step T hw (Good_refl T nroot st hg) _ _ hp
+
+include hw IH hg ha hp in
+theorem handler_readSed (hh : HandlerArgs .readSed args) :
+    Post (callHandler T (fuel + 1) .readSed buf mac args pos st)
+      (fun r st' => Good T nroot st st' ∧ BL T st.latex.length r) := by
+  simp only [callHandler]
+  refine Post_getBind _ st _ ?_
+  split
+  · exact Post_pure _ _ _ ⟨Good_refl T nroot st hg, BL_nil T _⟩
+  · refine Post_argBind args 0 _ st _ (arity_lt hh (by decide)) (fun a0 h0 ea0 => ?_)
+    refine Post_bind _ _ _ _ _ (text_step IH (Good_refl T nroot st hg) a0 (ha a0 h0)) (fun file s hs => ?_)
+    refine Post_getBind _ s _ ?_
+    cases hf : List.find? (fun x => x.fst == file) s.fs with
+    | none => exact latexError_step T hw hs _ _ hp
+    | some f =>
+      refine Post_bind _ _ _ _ _ (readSedText_step T hw hs f.2) (fun _ s1 h1 => ?_)
+      exact Post_pure _ _ _ ⟨h1, BL_nil T _⟩
+
 end handlers
 
 end HandlerStep
@@ -862,5 +971,9 @@ theorem handler_step (hw : T.WFInv) (nroot fuel : Nat) (IH : AllSpecs T nroot fu
   | newglossaryentry => exact handler_newglossaryentry IH buf mac args pos st hg ha hh
   | parseGlsdefs => exact handler_parseGlsdefs IH buf mac args pos st hg ha hh
   | opaqueH name => exact handler_opaqueH buf mac args pos st name
+  | readSed => exact handler_readSed hw IH buf mac args pos st hg ha hp hh
+  | crefWarn => exact handler_crefWarn hw buf mac args pos st hg hp
+  | cref plain star => exact handler_cref hw buf mac args pos st hg hp plain star hh
+  | crefrange plain star => exact handler_crefrange hw buf mac args pos st hg hp plain star hh
 
 end Yalafi
